@@ -4,6 +4,7 @@ import (
 	"fmt"
 	"sort"
 	"strings"
+	"sync"
 
 	"verif/harness/cat"
 	"verif/harness/univ"
@@ -43,6 +44,25 @@ func strSet(ss []string) string {
 type execKey struct {
 	F string
 	N int
+}
+
+var (
+	libIDMu sync.Mutex
+	libIDs  = map[string]int{} // library function -> constructor ID reported for it (process-wide)
+)
+
+// allLib reports whether every constructor of the catalog is a declared library function.
+func allLib(c *cat.Catalog) bool {
+	n := 0
+	for _, f := range c.Fns {
+		if f.Kind == "ctor" {
+			if f.Enc.Lib == "" {
+				return false
+			}
+			n++
+		}
+	}
+	return n > 0
 }
 
 // CompareEntry compares the prediction want with the observation got for operation idx.
@@ -100,6 +120,40 @@ func CompareEntry(c *cat.Catalog, dry bool, idx int, want, got *Entry) []Diverge
 			if gv != "ok" && got.Info.Filled {
 				add("info.onreject", ctx+": Info struct written by a rejected call", false)
 			}
+			if gv == "ok" && wv == "ok" && want.Op != "scope" {
+				if fn := c.Fns[want.F]; fn != nil && fn.Inv == "" {
+					in, out := ExpectedInfo(fn)
+					if fn.Enc.Lib != "" && got.Info.Filled {
+						libIDMu.Lock()
+						if old, ok := libIDs[fn.Enc.Lib]; ok && old != got.Info.ID {
+							add("info.id", fmt.Sprintf("%s: the same function %s was given ID %d and %d", ctx, fn.Enc.Lib, old, got.Info.ID), false)
+						}
+						for other, id := range libIDs {
+							if other != fn.Enc.Lib && id == got.Info.ID {
+								add("info.id", fmt.Sprintf("%s: distinct functions %s and %s share ID %d", ctx, other, fn.Enc.Lib, id), false)
+							}
+						}
+						libIDs[fn.Enc.Lib] = got.Info.ID
+						libIDMu.Unlock()
+					}
+					if !got.Info.Filled {
+						add("info.missing", ctx+": Info struct not filled by an accepted call", false)
+					} else if !eqStrings(in, got.Info.Inputs) || !eqStrings(out, got.Info.Outputs) {
+						add("info.entries", fmt.Sprintf("%s: Info want in=%q out=%q got in=%q out=%q", ctx, in, out, got.Info.Inputs, got.Info.Outputs), false)
+					}
+				}
+			}
+		}
+	} else if got.Info != nil && got.Info.Filled {
+		if fn := c.Fns[want.F]; fn != nil && fn.Inv == "" {
+			in, _ := ExpectedInfo(fn)
+			if !eqStrings(in, got.Info.Inputs) {
+				add("info.entries", fmt.Sprintf("%s: InvokeInfo want in=%q got in=%q", ctx, in, got.Info.Inputs), false)
+			}
+		}
+	} else if want.Op == "invoke" && got.Info != nil && wv == "ok" && gv == "ok" {
+		if fn := c.Fns[want.F]; fn != nil && len(fn.Ps) > 0 {
+			add("info.missing", ctx+": InvokeInfo not filled by a successful Invoke", false)
 		}
 	}
 	// executions
@@ -215,6 +269,13 @@ func CompareEntry(c *cat.Catalog, dry bool, idx int, want, got *Entry) []Diverge
 			}
 		}
 	}
+	for _, ev := range gcb {
+		if fn := c.Fns[ev.F]; fn != nil && fn.Enc.Lib != "" {
+			if wantName := "verif/harness/lib." + fn.Enc.Lib; ev.Name != wantName {
+				add("cb.name", fmt.Sprintf("%s: callback Name want %q got %q", ctx, wantName, ev.Name), false)
+			}
+		}
+	}
 	// a callback must come right after the execution it reports
 	if !dry {
 		for i, ev := range got.Log {
@@ -225,6 +286,12 @@ func CompareEntry(c *cat.Catalog, dry bool, idx int, want, got *Entry) []Diverge
 	}
 	if want.Snap != nil && got.Snap != nil {
 		ds = append(ds, compareSnap(c, dry, idx, ctx, want.Snap, got.Snap)...)
+	}
+	if want.Viz != nil && got.Dot != "" {
+		ds = append(ds, CompareViz(idx, ctx, want.Viz, got.Dot)...)
+	}
+	if want.VizErp != nil && want.Op == "invoke" && wv == gv && wv != "ok" && got.DotErr != "" {
+		ds = append(ds, CompareVizErr(c, idx, ctx, want.VizErp, got.CanViz, got.DotErr, allLib(c))...)
 	}
 	return ds
 }
